@@ -751,22 +751,33 @@ impl TermGen {
             }
         }
         // --- constructors
+        // n-ary constructors: the full product of children at depth 0; above that a "spine": one child ranges over
+        // all terms of the lower depth while the others range over the first two leaves (sum instead of product)
+        let nary = |this: &mut Self, tys: Vec<Ty>| -> Vec<Vec<Expr>> {
+            if d == 0 || tys.len() <= 1 {
+                let parts: Vec<Vec<Expr>> = tys.iter().map(|t| this.terms(t, d)).collect();
+                return cart(&parts);
+            }
+            let mut out = vec![];
+            let leaves: Vec<Vec<Expr>> = tys.iter().map(|t| this.leaves(t).into_iter().take(2).collect()).collect();
+            for i in 0..tys.len() {
+                let mut parts = leaves.clone();
+                parts[i] = this.terms(&tys[i], d);
+                out.extend(cart(&parts));
+            }
+            out
+        };
         match ty {
             Ty::Tuple(ts) if !ts.is_empty() => {
-                let parts: Vec<Vec<Expr>> = ts.iter().map(|t| self.terms(t, d)).collect();
-                out.extend(cart(&parts).into_iter().map(Expr::Tuple));
+                out.extend(nary(self, ts.clone()).into_iter().map(Expr::Tuple));
             }
             Ty::Array(t, n) if *n > 0 && *n <= 4 => {
-                let el = self.terms(t, d);
-                let parts: Vec<Vec<Expr>> = (0..*n).map(|_| el.clone()).collect();
-                out.extend(cart(&parts).into_iter().map(Expr::Array));
+                out.extend(nary(self, vec![(**t).clone(); *n]).into_iter().map(Expr::Array));
             }
             Ty::Array(_, 0) => out.push(Expr::Array(vec![])),
             Ty::List(t, n) => {
-                let el = self.terms(t, d);
                 for len in 0..(*n).min(4) {
-                    let parts: Vec<Vec<Expr>> = (0..len).map(|_| el.clone()).collect();
-                    out.extend(cart(&parts).into_iter().map(Expr::List));
+                    out.extend(nary(self, vec![(**t).clone(); len]).into_iter().map(Expr::List));
                 }
             }
             Ty::Option(t) => {
